@@ -29,29 +29,30 @@ def _sum_by_group_sorted(indices, *values):
     :return:
     :rtype:
     """
+    if len(indices) == 0:
+        return [indices] + list(values)
+
     # Index defines whether a specific index has already appeared in the index array before.
     index = np.ones(len(indices), 'bool')
     index[:-1] = indices[1:] != indices[:-1]
+    # first position of each run of equal indices
+    starts = np.concatenate(([0], np.flatnonzero(index)[:-1] + 1))
 
     # make indices unique for output
     indices = indices[index]
 
     val = list(values)
     for i, _ in enumerate(val):
-        # sum up values, chose only those with unique indices and then subtract the previous sums
-        # --> this way for each index the sum of all values belonging to this index is returned
+        # sum up the values of each run of equal indices separately (a running sum over the whole array with
+        # differences at the run ends would make each sum as inaccurate as the largest entry anywhere before it)
         nans = np.isnan(val[i])
         if np.any(nans):
             np.nan_to_num(val[i], copy=False)
-            np.cumsum(val[i], out=val[i])
-            val[i] = val[i][index]
             still_na = nans[index]
-            val[i][1:] = val[i][1:] - val[i][:-1]
+            val[i] = np.add.reduceat(val[i], starts)
             val[i][still_na] = np.nan
         else:
-            np.cumsum(val[i], out=val[i])
-            val[i] = val[i][index]
-            val[i][1:] = val[i][1:] - val[i][:-1]
+            val[i] = np.add.reduceat(val[i], starts)
     return [indices] + val
 
 
